@@ -137,6 +137,22 @@ def cases(tier, seed):
         acc_pairs.append((rnd.choice(by_kind[kw]), rnd.choice(by_kind[kx])))
   for _ in range(300 if quick else 4000):
     acc_pairs.append((qt.random_spec(rnd, 9, 16), qt.random_spec(rnd, 1, 16)))
+  # fixed operands with a negative integer width (all values below 1/2; the shape of a scale-adjusted
+  # auto_po2 multiplier output): the growth rule has to keep the fractional bits
+  def neg_fixed():
+    b = rnd.randint(2, 8)
+    if rnd.random() < 0.5:
+      return {"k": "fs", "q": "quantized_bits", "bits": b, "int": -rnd.randint(1, 5)}
+    return {"k": "fu", "q": "quantized_bits_u", "bits": b, "int": -rnd.randint(1, 5)}
+  fixed_only = by_kind["fs"] + by_kind["fu"]
+  for _ in range(160 if quick else 2000):
+    r = rnd.random()
+    if r < 0.4:
+      acc_pairs.append((neg_fixed(), neg_fixed()))
+    elif r < 0.7:
+      acc_pairs.append((neg_fixed(), rnd.choice(fixed_only)))
+    else:
+      acc_pairs.append((rnd.choice(fixed_only), neg_fixed()))
   for (w, x) in acc_pairs:
     ns = pick_ns(rnd, 6 if quick else 12)
     c = {"t": "acc", "w": w, "x": x, "shapes": [shape_for(n, rnd) for n in ns]}
